@@ -32,11 +32,9 @@ from typing import Any
 
 from mypyc.ir.func_ir import FuncIR
 from mypyc.ir.ops import (
-    ERR_MAGIC,
     ERR_MAGIC_OVERLAPPING,
     Assign,
     AssignMulti,
-    BasicBlock,
     Box,
     Branch,
     CallC,
@@ -46,7 +44,6 @@ from mypyc.ir.ops import (
     DecRef,
     GetAttr,
     GetElement,
-    GetElementPtr,
     Goto,
     IncRef,
     Integer,
@@ -69,7 +66,6 @@ from mypyc.ir.ops import (
     Unreachable,
     Value,
 )
-from mypyc.ir.rtypes import RArray
 
 UNDEF, NULL, OK = 0, 1, 2
 
@@ -298,9 +294,6 @@ class FnChecker:
                     if (c >> 3) == 0:
                         stack.append(w)
 
-    def _owned(self, s: list[int], i: int) -> int:
-        return (s[i] >> 3) if self.refc[i] else 0
-
     def _release(self, s: list[int], i: int, invalidate: bool = True) -> None:
         c = s[i]
         n = (c >> 3) - 1
@@ -309,8 +302,6 @@ class FnChecker:
             self._invalidate(s, i)
 
     # ------------------------------------------------------------------ transfer
-
-    NULL_INTOLERANT = (IncRef, DecRef, GetAttr, SetAttr, MethodCall, Box, Unbox, Cast, Unborrow)
 
     def _null_position(self, op: Op, v: Value) -> bool:
         """Is `v` used by `op` in a position that dereferences it?"""
